@@ -354,3 +354,11 @@ package keeper
 //@   flag noframe
 //@   flag pure=ConsensusAddrsToPruneKey
 //@   before[C16.ccatp.key,C18.ccatp.key] KVStore.Delete requires defined(res_ConsensusAddrsToPruneKey_0) && arg0 == res_ConsensusAddrsToPruneKey_0
+
+// C06 (the stored record of a block's validator updates is what consensus was told): the whole list handed in is
+// stored, as many entries as it has.
+//@ func (Keeper).SetValidatorUpdates
+//@   flag noframe
+//@   flag pure=ValidatorUpdatesKey,GetMaxValidators
+//@   ensures[C06.svu.all] defined(res_MustMarshal_0) &&
+//@        unm["github.com/cosmos/cosmos-sdk/x/staking/types.ValidatorUpdates"](res_MustMarshal_0).Updates == valUpdates
